@@ -442,9 +442,12 @@ var Findings = []Finding{
 	{"with-constants-only-loses-rows", WithOnlyConstants},
 	{"with-where-moves-into-optional-match", WithWhereBeforeOptionalMatch},
 	{"labels-predicate-floats-to-final-select", LabelsPredicateBeforeBoundary},
+	{"quantifier-predicate-floats-to-final-select", QuantifierPredicateBeforeBoundary},
 	{"xor-operands-lose-grouping", XorWithCompoundOperand},
 	{"path-function-on-null-path", PathFunctionOnOptionalPath},
 	{"labels-of-null-node", LabelsOfOptionalNode},
+	{"null-test-on-property-of-null-entity", NullTestOnOptionalEntityProperty},
+	{"continuation-step-drops-carried-constraints", EndpointPredicateOfExpansionBeforeContinuation},
 }
 
 // AggConstantKeyOnly: an aggregating WITH/RETURN whose grouping items read no variable (literals, parameters,
@@ -895,6 +898,30 @@ func ExactRangeIntoBoundNode(q *Shape) bool {
 			found = true
 		}
 	})
+	// The optimiser plans no expand-into decisions for OPTIONAL MATCH either: there every fixed continuation step
+	// whose right node restates a bound variable takes the same path, e.g. OPTIONAL MATCH (x)-[r]->(n)-[s]->(n).
+	q.walkParts(func(m *MatchShape, i int, ps *PatternShape, bound map[string]bool) {
+		if m.Match == nil || !m.Match.Optional {
+			return
+		}
+		for k, r := range ps.Rels {
+			if k == 0 || IsVarLength(r) || k+1 >= len(ps.Nodes) {
+				continue
+			}
+			right := varName(ps.Nodes[k+1].Variable)
+			if right == "" {
+				continue
+			}
+			if bound[right] {
+				found = true
+			}
+			for _, earlier := range ps.Nodes[:k+1] {
+				if varName(earlier.Variable) == right {
+					found = true
+				}
+			}
+		}
+	})
 	return found
 }
 
@@ -1003,13 +1030,9 @@ func WithWhereBeforeOptionalMatch(q *Shape) bool {
 	return false
 }
 
-// LabelsPredicateBeforeBoundary: a WHERE that calls labels() and is followed by something that must see the
-// filtered rows: it belongs to a (non-leading) OPTIONAL MATCH, or a later OPTIONAL MATCH / WITH follows. The
-// labels() translation is a sub-select whose local aliases (_kind, _kind_idx, table kind) are taken for query
-// bindings by ExtractSyntaxNodeReferences (translate/expression.go), so no frame ever satisfies the constraint's
-// dependencies and it is emitted in the WHERE of the final select: after the outer join of an OPTIONAL MATCH, after
-// LIMIT / aggregation of a WITH.
-func LabelsPredicateBeforeBoundary(q *Shape) bool {
+// predicateBeforeBoundary reports whether a WHERE for which has() holds is followed by something that must see the
+// filtered rows: it belongs to a (non-leading) OPTIONAL MATCH, or a later OPTIONAL MATCH / WITH follows.
+func (q *Shape) predicateBeforeBoundary(has func(where any) bool) bool {
 	for pi, p := range q.Parts {
 		mi := 0
 		for ci, rc := range p.Clauses {
@@ -1018,7 +1041,7 @@ func LabelsPredicateBeforeBoundary(q *Shape) bool {
 			}
 			m := p.Matches[mi]
 			mi++
-			if rc.Match.Where == nil || !callsFunction(rc.Match.Where, "labels") {
+			if rc.Match.Where == nil || !has(rc.Match.Where) {
 				continue
 			}
 			if rc.Match.Optional && m.Index > 0 {
@@ -1033,7 +1056,7 @@ func LabelsPredicateBeforeBoundary(q *Shape) bool {
 				}
 			}
 		}
-		if p.Where != nil && callsFunction(p.Where, "labels") && pi+1 < len(q.Parts) {
+		if p.Where != nil && has(p.Where) && pi+1 < len(q.Parts) {
 			next := q.Parts[pi+1]
 			if !next.IsReturn {
 				return true
@@ -1046,6 +1069,32 @@ func LabelsPredicateBeforeBoundary(q *Shape) bool {
 		}
 	}
 	return false
+}
+
+// LabelsPredicateBeforeBoundary: a WHERE that calls labels() and is followed by something that must see the
+// filtered rows: it belongs to a (non-leading) OPTIONAL MATCH, or a later OPTIONAL MATCH / WITH follows. The
+// labels() translation is a sub-select whose local aliases (_kind, _kind_idx, table kind) are taken for query
+// bindings by ExtractSyntaxNodeReferences (translate/expression.go), so no frame ever satisfies the constraint's
+// dependencies and it is emitted in the WHERE of the final select: after the outer join of an OPTIONAL MATCH, after
+// LIMIT / aggregation of a WITH.
+func LabelsPredicateBeforeBoundary(q *Shape) bool {
+	return q.predicateBeforeBoundary(func(where any) bool { return callsFunction(where, "labels") })
+}
+
+// QuantifierPredicateBeforeBoundary: the same for any / all / none / single: the quantifier's sub-select binds its
+// own alias (unnest(...) as iN), which counts as a dependency no frame provides, so the predicate ends up in the
+// WHERE of the final select.
+func QuantifierPredicateBeforeBoundary(q *Shape) bool {
+	return q.predicateBeforeBoundary(func(where any) bool {
+		found := false
+		Visit(where, func(n any) bool {
+			if _, ok := n.(*cypher.Quantifier); ok {
+				found = true
+			}
+			return !found
+		})
+		return found
+	})
 }
 
 // XorWithCompoundOperand: an XOR one of whose operands is a conjunction / disjunction / negation / comparison.
@@ -1139,4 +1188,95 @@ func LabelsOfOptionalNode(q *Shape) bool {
 		})
 	}
 	return found
+}
+
+// NullTestOnOptionalEntityProperty: x.key IS NULL / IS NOT NULL where x is introduced by a (non-leading) OPTIONAL
+// MATCH. The test is emitted as "not properties ? key or properties -> key = 'null'" (translate/expression.go
+// rewritePropertyLookupNullCheck); on a null entity both operands are NULL and so is the result, where openCypher's
+// IS [NOT] NULL is always true or false. Visible as a projected value and under NOT.
+func NullTestOnOptionalEntityProperty(q *Shape) bool {
+	optional := map[string]bool{}
+	q.walkParts(func(m *MatchShape, i int, ps *PatternShape, bound map[string]bool) {
+		if m.Match == nil || !m.Match.Optional || m.Index == 0 {
+			return
+		}
+		for _, n := range ps.Nodes {
+			if v := varName(n.Variable); v != "" && !bound[v] {
+				optional[v] = true
+			}
+		}
+		for _, r := range ps.Rels {
+			if v := varName(r.Variable); v != "" && !bound[v] {
+				optional[v] = true
+			}
+		}
+	})
+	if len(optional) == 0 {
+		return false
+	}
+	found := false
+	Visit(q.Model, func(n any) bool {
+		c, ok := n.(*cypher.Comparison)
+		if !ok || c == nil {
+			return true
+		}
+		pl, isLookup := c.Left.(*cypher.PropertyLookup)
+		if !isLookup || pl == nil {
+			return true
+		}
+		base, isVar := pl.Atom.(*cypher.Variable)
+		if !isVar || base == nil || !optional[base.Symbol] {
+			return true
+		}
+		for _, partial := range c.Partials {
+			if partial != nil && (partial.Operator == cypher.OperatorIs || partial.Operator == cypher.OperatorIsNot) {
+				found = true
+			}
+		}
+		return !found
+	})
+	return found
+}
+
+// EndpointPredicateOfExpansionBeforeContinuation: a variable-length step that is followed by another step, with a
+// WHERE that reads the expansion's left node together with another variable of the pattern (an expansion leaves a
+// predicate relating its root and terminal nodes unconsumed, consumePatternConstraints in translate/constraints.go).
+// The next fixed step consumes it as its left-node constraint, which translateTraversalPatternPartWithoutExpansion
+// only keeps for a first step: the predicate disappears from the SQL. (Before a following expansion it only reaches
+// the seed: expansion-seed-filter-not-applied-to-rows.)
+// Not narrower: which conjuncts are still pending is decided by the constraint tracker.
+func EndpointPredicateOfExpansionBeforeContinuation(q *Shape) bool {
+	for _, m := range q.AllMatches() {
+		if m.Match == nil || m.Match.Where == nil {
+			continue
+		}
+		for _, ps := range m.Parts {
+			for k, r := range ps.Rels {
+				if !IsVarLength(r) || k+1 >= len(ps.Rels) {
+					continue
+				}
+				root := varName(ps.Nodes[k].Variable)
+				other := varName(ps.Nodes[k+1].Variable)
+				if root == "" || other == "" {
+					continue
+				}
+				readsRoot, readsOther := false, false
+				Visit(m.Match.Where, func(n any) bool {
+					if v, ok := n.(*cypher.Variable); ok && v != nil {
+						if v.Symbol == root {
+							readsRoot = true
+						}
+						if v.Symbol == other {
+							readsOther = true
+						}
+					}
+					return true
+				})
+				if readsRoot && readsOther {
+					return true
+				}
+			}
+		}
+	}
+	return false
 }
